@@ -34,7 +34,7 @@ def main (args : List String) : IO UInt32 := do
     for c in Drv.parseCases text do
       out.putStrLn s!"CASE {c.id}"
       let lines ← match c.kind with
-        | "readwig" | "readbed" | "wfwig" | "wfbed" =>
+        | "readwig" | "readbed" | "wfwig" | "wfbed" | "fileof" =>
           match (c.records "FILEHEX").head?, (c.records "FILE").head? with
           | some l, _ =>
             let bytes : ByteArray := (Drv.unhex (l.getD 1 "-")).foldl (fun a b => a.push (UInt8.ofNat b)) ByteArray.empty
@@ -42,6 +42,7 @@ def main (args : List String) : IO UInt32 := do
               | "readwig" => Drv.readWigFile bytes c
               | "readbed" => Drv.readBedFile bytes c
               | "wfwig" => Drv.wfWigFile bytes
+              | "fileof" => Drv.fileOfCase bytes c
               | _ => Drv.wfBedFile bytes)
           | none, some l =>
             try
@@ -50,6 +51,7 @@ def main (args : List String) : IO UInt32 := do
                 | "readwig" => Drv.readWigFile bytes c
                 | "readbed" => Drv.readBedFile bytes c
                 | "wfwig" => Drv.wfWigFile bytes
+                | "fileof" => Drv.fileOfCase bytes c
                 | _ => Drv.wfBedFile bytes)
             catch _ => pure ["R no-such-file"]
           | none, none => pure ["R no-file-line"]
